@@ -10,6 +10,8 @@ REGISTRY = {
     'C06': ('vf.checks.c06_check', lambda m: m.main()),
     'C07': ('vf.checks.c07_check', lambda m: m.main()),
     'C08': ('vf.checks.c08_check', lambda m: m.main()),
+    'C09': ('vf.checks.c0910_check', lambda m: m.main('C09')),
+    'C10': ('vf.checks.c0910_check', lambda m: m.main('C10')),
     'C11': ('vf.checks.emis_check', lambda m: m.main('C11')),
     'C12': ('vf.checks.c12_check', lambda m: m.main()),
     'C15': ('vf.checks.c15_check', lambda m: m.main()),
